@@ -42,32 +42,37 @@ Proof. vm_compute. repeat split; reflexivity. Qed.
 
 (* ---- range of the parser ---- *)
 
-Theorem parser_range : forall t, wf_last (parse t) = true.
+Theorem parser_range : forall t, forallb wf (parse t) = true.
 Proof. exact parser_range_proof. Qed.
 Print Assumptions parser_range.
 
-Theorem parsed_roundtrip_check : forall t, parse (w_check (parse t)) = norm (parse t).
+Theorem parsed_roundtrip_check : forall t, parse (w_check (parse t)) = parse t.
 Proof. exact parsed_roundtrip_check_proof. Qed.
 Print Assumptions parsed_roundtrip_check.
 
-Theorem parsed_roundtrip_default : forall t, parse (w_default (parse t)) = norm (parse t).
+Theorem parsed_roundtrip_default : forall t, parse (w_default (parse t)) = parse t.
 Proof. exact parsed_roundtrip_default_proof. Qed.
 Print Assumptions parsed_roundtrip_default.
 
-Theorem parsed_roundtrip_pretty : forall t, parse (w_pretty (parse t)) = norm (parse t).
+Theorem parsed_roundtrip_pretty : forall t, parse (w_pretty (parse t)) = parse t.
 Proof. exact parsed_roundtrip_pretty_proof. Qed.
 Print Assumptions parsed_roundtrip_pretty.
 
-Theorem parsed_roundtrip_wrap : forall t, parse (w_wrap (parse t)) = norm (parse t).
+Theorem parsed_roundtrip_wrap : forall t, parse (w_wrap (parse t)) = parse t.
 Proof. exact parsed_roundtrip_wrap_proof. Qed.
 Print Assumptions parsed_roundtrip_wrap.
 
-(* a text ending inside a comment: the last leaf is the unterminated comment,
-   [norm] appends the LF; an unbalanced text still parses into the range *)
+(* a text ending inside a comment: the parser appends the LF, so the last leaf
+   is a well-formed comment; an unbalanced text still parses into the range.
+   A comment cut off inside a list that is still open is dropped with it. *)
 Example parsed_roundtrip_ex :
   let t := [cLP; 97%N; cSP; cDQ; cRP; cDQ; cRP; cRP; cSEMI; 120%N] in
-  parse t = [T [L [97%N]; L [cDQ; cRP; cDQ]]; L [cSEMI; 120%N]] /\
-  forallb wf (parse t) = false /\ wf_last (parse t) = true /\
-  norm (parse t) = [T [L [97%N]; L [cDQ; cRP; cDQ]]; L [cSEMI; 120%N; cLF]] /\
-  parse (w_pretty (parse t)) = norm (parse t).
+  parse t = [T [L [97%N]; L [cDQ; cRP; cDQ]]; L [cSEMI; 120%N; cLF]] /\
+  forallb wf (parse t) = true /\
+  parse (w_pretty (parse t)) = parse t.
+Proof. vm_compute. repeat split; reflexivity. Qed.
+
+Example parsed_open_list_ex :
+  let t := [97%N; cSP; cLP; 98%N; cSP; cSEMI; 120%N] in
+  parse t = [L [97%N]] /\ forallb wf (parse t) = true.
 Proof. vm_compute. repeat split; reflexivity. Qed.
